@@ -121,3 +121,25 @@ def po_liquidate_step(S):
     if len(w.actions) > n0:
         S.cover("liquidated")
     _coherent(S, m)
+
+
+@proof("C13", "two-markets-in-one-process/each-market's-figures-come-from-its-OWN-positions-and-risk-table", strength="S",
+       shapes={k: [s for s in v if s["supplies"] and s["borrows"]][:1] for k, v in SHAPES.items()}, contracts=AAVE_CONTRACTS)
+def po_two_markets(S):
+    """'recomputed from scratch from the current positions, indices and prices' — of THAT market: a second market with its own risk table
+    (another chain, another parameter file) evaluated after the first one reports its own health factor, liquidation threshold, max LTV
+    and totals.  The recomputation here is written over the raw positions (aave_common spec functions), not through the library."""
+    from .aave_common import weighted_collateral, total_debt_value, total_collateral_value, total_supply_value
+    from pyvc.api import exact
+    w1 = world(S, "m1_")
+    w2 = world(S, "m2_")
+    read_views(w1.market)                 # the first market is evaluated first (whatever it may leave behind in the process)
+    for tag, w in (("first", w1), ("second", w2)):
+        m = w.market
+        debt, coll = total_debt_value(m), total_collateral_value(m)
+        if debt != 0:
+            S.check(f"{tag}:health-factor==own-collateral-x-own-LT/own-debt", S.eq(m.health_factor, weighted_collateral(m, "LT") / exact(debt)))
+        if coll != 0:
+            S.check(f"{tag}:liquidation-threshold==own-weighted-mean", S.eq(m.liquidation_threshold, weighted_collateral(m, "LT") / exact(coll)))
+            S.check(f"{tag}:max-ltv==own-weighted-mean", S.eq(m.max_ltv, weighted_collateral(m, "LTV") / exact(coll)))
+        S.check(f"{tag}:totals", S.eq(m.total_supply_value, total_supply_value(m)) and S.eq(m.total_collateral_value, coll) and S.eq(m.total_borrows_value, debt))
